@@ -263,6 +263,18 @@ fn directed(k: u64) -> Vec<Cmd> {
                 (req(RequestType::ReplaceCertificate(ReplaceCertificate { address: a, new_certificate: bad, old_fingerprint: fp, new_expired_at: None })), "ReplaceCertificate/unparsable_new_certificate".to_owned()),
             ]
         }
+        // replacement by a PEM block that is not X.509, without names override
+        4 => {
+            let Some(pem) = fx.not_x509.first() else { return vec![] };
+            let c = f(0, vec!["x"]);
+            let fp = fingerprint_hex(&c);
+            let mut bad = f(1, vec![]);
+            bad.certificate = (*pem).to_owned();
+            vec![
+                (req(RequestType::AddCertificate(AddCertificate { address: a, certificate: c, expired_at: None })), "AddCertificate".to_owned()),
+                (req(RequestType::ReplaceCertificate(ReplaceCertificate { address: a, new_certificate: bad, old_fingerprint: fp, new_expired_at: None })), "ReplaceCertificate/pem_not_x509_empty_names".to_owned()),
+            ]
+        }
         // certificate that is PEM but not X.509, no names, on a fresh address
         _ => {
             let Some(pem) = fx.not_x509.first() else { return vec![] };
@@ -272,7 +284,7 @@ fn directed(k: u64) -> Vec<Cmd> {
         }
     }
 }
-const DIRECTED: u64 = 5;
+const DIRECTED: u64 = 6;
 
 fn run_case(ctx: &Ctx, case: u64, rep: &mut Report) {
     let fx = fixtures();
@@ -326,7 +338,7 @@ fn run_case(ctx: &Ctx, case: u64, rep: &mut Report) {
 pub fn run(ctx: &Ctx) -> Report {
     let mut rep = Report::new(
         "exploration",
-        "random histories of 5..50 commands on an initially empty ConfigState (generator shared with C05: every mutating verb, collision-rich alphabet); half of the commands come from a 52-entry catalogue of commands with exactly one invalid field among valid ones (listener patches with one flood knob at 0, shrink ratio < 2, bad ALPN value, bad sozu_id_header, unknown address; certificate replacement with unparsable certificate / bad hex / unknown address / old == new; AddCertificate with a non-PEM or non-X.509 body on fresh and known addresses; unknown listener type / rule position / path kind / LB algorithm; missing targets; duplicates; empty and non-configuration requests); every command is judged against a snapshot of the state before it; a case is non-trivial when it saw both accepted and rejected commands; distinct = distinct (label, outcome) sequences; 5 directed minimal scenarios run first",
+        "random histories of 5..50 commands on an initially empty ConfigState (generator shared with C05: every mutating verb, collision-rich alphabet); half of the commands come from a 56-entry catalogue of commands with exactly one invalid field among valid ones (listener patches with one flood knob at 0, shrink ratio < 2, bad ALPN value, bad sozu_id_header, unknown address; certificate replacement with unparsable certificate / bad hex / unknown address / old == new; AddCertificate with a non-PEM or non-X.509 body on fresh and known addresses; unknown listener type / rule position / path kind / LB algorithm; missing targets; duplicates; empty and non-configuration requests); every command is judged against a snapshot of the state before it; a case is non-trivial when it saw both accepted and rejected commands; distinct = distinct (label, outcome) sequences; 6 directed minimal scenarios run first",
     );
     rep.assume("level (i) only: ConfigState::dispatch; hub and worker levels belong to the hub and worker labs");
     rep.assume("footprint of an accepted command: the map entry (or, for bucketed maps, the bucket + entries with the named cluster/address/id/fingerprint) the verb names; for patches additionally only the fields present in the patch; the http(s) frontend key is the documented summary address;hostname;path[;method]; RemoveTcp/UdpFrontend names (cluster, address): dropping several entries at that address is counted as exempt, not judged");
@@ -342,6 +354,10 @@ pub fn run(ctx: &Ctx) -> Report {
         "rejected:ReplaceCertificate/unparsable_new_certificate",
         "rejected:ReplaceCertificate/bad_hex_old_fingerprint",
         "rejected:ReplaceCertificate/unknown_address",
+        "rejected:ReplaceCertificate/pem_not_x509_empty_names",
+        "accepted:ReplaceCertificate/pem_not_x509_explicit_names",
+        "accepted:AddCertificate/pem_not_x509_explicit_names",
+        "rejected:AddCertificate/pem_not_x509_empty_names",
         "accepted:ReplaceCertificate/old_equals_new",
         "rejected:AddCertificate/not_pem",
         "rejected:RemoveListener/unknown_listener_type",
